@@ -256,8 +256,8 @@ Proof.
     apply tbind_ok in H as [Ga [_ H]]. apply tbind_ok in H as [Gb [_ H]]. inversion H; subst; auto.
   - apply tbind_ok in H as [tc [_ H]]. destruct tc; try discriminate.
     apply tbind_ok in H as [Ga [_ H]]. inversion H; subst; auto.
-  - apply tbind_ok in H as [tl [_ H]]. apply tbind_ok in H as [th [_ H]].
-    destruct (ty_eqb tl (TInt t) && ty_eqb th (TInt t)); [|discriminate].
+  - apply tbind_ok in H as [tl [_ H]]. apply tbind_ok in H as [th [_ H]]. apply tbind_ok in H as [ts [_ H]].
+    destruct (ty_eqb tl (TInt t) && ty_eqb th (TInt t) && ty_eqb ts (TInt t)); [|discriminate].
     apply tbind_ok in H as [Ga [_ H]]. inversion H; subst; auto.
   - destruct inl; inversion H; subst; auto.
   - destruct inl; inversion H; subst; auto.
@@ -344,17 +344,18 @@ Proof.
       * apply IHn; assumption.
       * split; [exact Hfl|]. exists G'. repeat split; auto; try discriminate.
     + cbn. split; [exact I|]. exists G'. auto.
-  - (* for *) apply tbind_ok in H as [tl [Hlo H]]. apply tbind_ok in H as [th [Hhi H]].
-    destruct (ty_eqb tl (TInt t) && ty_eqb th (TInt t)) eqn:Et; [|discriminate].
-    apply andb_prop in Et as [E1 E2]. apply ty_eqb_eq in E1, E2. subst tl th.
+  - (* for *) apply tbind_ok in H as [tl [Hlo H]]. apply tbind_ok in H as [th [Hhi H]]. apply tbind_ok in H as [ts [Hst H]].
+    destruct (ty_eqb tl (TInt t) && ty_eqb th (TInt t) && ty_eqb ts (TInt t)) eqn:Et; [|discriminate].
+    apply andb_prop in Et as [Et E3]. apply andb_prop in Et as [E1 E2]. apply ty_eqb_eq in E1, E2, E3. subst tl th ts.
     apply tbind_ok in H as [Ga [Ha H]]. inversion H; subst. cbn.
     eapply fine_bind; [eapply eval_safe; eassumption|]. intros vlo out1 Hvlo.
     eapply fine_bind; [eapply eval_safe; eassumption|]. intros vhi out2 Hvhi.
-    destruct vlo as [t1 l| | |], vhi as [t2 h| | |]; cbn in Hvlo, Hvhi; try contradiction. subst t1 t2.
-    match goal with |- fine ?P (?L k l en out2) =>
+    eapply fine_bind; [eapply eval_safe; eassumption|]. intros vst out3 Hvst.
+    destruct vlo as [t1 l| | |], vhi as [t2 h| | |], vst as [t3 st| | |]; cbn in Hvlo, Hvhi, Hvst; try contradiction. subst t1 t2 t3.
+    match goal with |- fine ?P (?L k l en out3) =>
       assert (Hl : forall n i e o, env_ok G' e -> fine P (L n i e o)); [|apply Hl; assumption] end.
-    clear en out He out1 out2. induction n as [|n IHn]; intros i en out He; [exact I|].
-    destruct (Z.ltb i h).
+    clear en out He out1 out2 out3. induction n as [|n IHn]; intros i en out He; [exact I|].
+    destruct (for_cond incl st i h).
     + eapply fine_bind; [eapply (IHs ret true ([(x, TInt t)] :: G') Ga ([(x, VInt t i)] :: en));
         [eassumption|constructor; [constructor; [reflexivity|constructor]|assumption]|discriminate]|].
       intros r out3 Hp. destruct Hp as [Hfl [Gx [Hex [Htl _]]]]. apply env_ok_tl in Hex. rewrite Htl in Hex. cbn in Hex.
